@@ -17,7 +17,8 @@
              marked Bad by format_fat while the FS-info sector counts them as free. *)
 From Coq Require Import NArith List.
 From FatVerif Require Import Model.Base Model.Slot Model.Table Spec.Image Model.Fat Model.Format Spec.FormatSpec
-  Model.FormatImage Spec.FormatImageSpec Proofs.TableProofs Proofs.FatProofs Proofs.FormatProofs Proofs.FormatImageProofs.
+  Model.FormatImage Spec.FormatImageSpec Proofs.TableProofs Proofs.FatProofs Proofs.FormatProofs Proofs.FormatImageProofs
+  Proofs.FormatImageAbs.
 From FatVerif Require Spec.Abs Spec.Wf.
 Import ListNotations.
 Open Scope N_scope.
@@ -259,6 +260,25 @@ Theorem C06_image_total : forall o ts im0, builder_range o -> ts < 4294967296 ->
   ((exists im, format_image o ts im0 = Ok im) <-> (exists r, format_boot_sector_validated o ts = Ok r)).
 Proof. exact image_total. Qed.
 
+(* g. tie to the independent decoder (Spec/Abs.v, written from the FAT specification): the image decodes to the geometry
+      of its boot sector - in particular to the cluster count and FAT width of part 1 - and to the EMPTY volume: no root
+      entry, no decode issue, the label, the root chain [2] on FAT32, FS-info words total-1 / 3, the decoder's own count
+      of free clusters, and no well-formedness issue of Spec/Wf.v (no lost cluster, cross link, bad chain, ...) for any
+      case folding *)
+Theorem C06_image_decodes_empty : forall o ts im0 bs t im fold, builder_range o -> ts < 4294967296 -> bytes_ok im0 ->
+  format_boot_sector_validated o ts = Ok (bs, t) -> format_image o ts im0 = Ok im ->
+  let b := fbs_bpb bs in
+  let total := sp_clusters b in
+  let v := Abs.abs im in
+  Abs.parse_geom im = geom_of b /\
+  Abs.g_clusters (geom_of b) = total /\ Abs.g_bits (geom_of b) = bits_per_fat_entry t /\
+  Abs.v_root v = [] /\ Abs.v_root_issues v = [] /\ Abs.v_labels v = expected_labels o /\
+  Abs.v_root_chain v = (if sp_is32 t then Some [2] else None) /\
+  (t = Format.Fat32 -> Abs.v_fsinfo_free v = total - 1 /\ Abs.v_fsinfo_next v = 3) /\
+  Abs.count_free (Abs.parse_geom im) im = (if sp_is32 t then total - 1 else total) - bad_range_clusters total /\
+  Wf.wf_issues fold im = [].
+Proof. exact image_decodes_empty. Qed.
+
 (* ---------------------------------------------------------------- examples: the hypotheses are satisfiable and the bytes
    are the expected ones.  64 sectors, FAT12, 16 root entries, label "ABCDEFGHIJK", on a device filled with 0xD1. *)
 Definition ex_img_request : fmt_options :=
@@ -317,3 +337,4 @@ Print Assumptions C06_image_fat1216_small.
 Print Assumptions C06_image_fsinfo_count_exact.
 Print Assumptions C06_image_fsinfo_count_refuted.
 Print Assumptions C06_image_total.
+Print Assumptions C06_image_decodes_empty.
